@@ -31,6 +31,9 @@ Step(s, ev) ==
     [] ev.ev = "CalibrateCase" ->
          Res(IF ev.exc = "" THEN [s EXCEPT !.thr = ev.thr] ELSE s, CalFails(ev), CalEx(ev))
     [] ev.ev = "CalibrateInvalid" -> Res(s, InvalidFails(ev), InvalidEx)
+    [] ev.ev = "CallPairs"        -> Res(s, CallPairsFails(ev), {"C02.suite_call_" \o ev.method})
+    [] ev.ev = "CallTransform"    -> Res(s, CallTransformFails(ev), {"C02.suite_call_transform"})
+    [] ev.ev = "CallPredictPairs" -> Res(s, CallPredictFails(ev), {"C04.suite_call_predict"})
     [] ev.ev = "PredictPairs"    -> Res(s, PairsFails(s.thr, ev), PairsEx(ev))
     [] ev.ev = "PredictTriplets" -> Res(s, TripletsFails(ev), TripletsEx)
     [] ev.ev = "PredictQuads"    -> Res(s, QuadsFails(ev), QuadsEx)
